@@ -26,7 +26,7 @@ ASSUMPTIONS = ["documented penalties: RIM reg*||W||^2; KernelRIM reg*tr(W' K_tra
 EVAL_COUNTER = "steps_monitored"
 FAMILIES = ["LinearModel", "RIM", "KernelRIM", "MLPModel", "SparseLinearModel", "SparseMLPModel", "CategoricalModel",
             "Douglas"]
-REQUIRED = {"quick": dict({"fits_with_user_epsilon": 8, "steps_monitored": 400, "coords_compared": 8000, "decorated_steps": 40, "late_steps": 100,
+REQUIRED = {"quick": dict({"fits_with_user_epsilon": 8, "steps_monitored": 400, "coords_compared": 8000, "decorated_steps": 40, "late_steps": 100, "continuation_steps_from_a_switched_off_feature": 20,
                            "path_steps": 10},
                           **{"steps:" + f: 25 for f in FAMILIES}),
             "thorough": dict({"steps_monitored": 8000, "coords_compared": 200000, "decorated_steps": 800},
@@ -56,6 +56,7 @@ class State(_train.Listener):
         self.cap = 16
         self.mlcl = None
         self.step = 0
+        self.extra_off = 0
         self.monitor_steps = set()
         self.path_prob = 0.0
         self.kind = "fit"
@@ -68,6 +69,7 @@ class State(_train.Listener):
     def fit_enter(self, model, X, y, kind):
         if len(self.tap.stack) == 1:
             self.step = 0
+            self.extra_off = 0
         self.kind = self.tap.stack[0][2]
 
     # --- the invariant -------------------------------------------------------------------------------------
@@ -81,7 +83,17 @@ class State(_train.Listener):
             if self.rng.random() >= self.path_prob:
                 return
         elif k not in self.monitor_steps:
-            return
+            # steps taken while a sparse model has already switched a feature off are monitored one time in five beyond
+            # the drawn ones (at most 6 per fit): that is the regime in which "selected" and "all" features differ
+            W = getattr(model, "W_skip_", None) if model is not None else None
+            if W is None and model is not None and hasattr(model, "get_selection"):
+                W = getattr(model, "W_", None)
+            off = W is not None and hasattr(model, "get_selection") and bool(np.any(np.all(np.asarray(W) == 0, axis=1))) \
+                and not bool(np.all(np.asarray(W) == 0))
+            if not off or self.extra_off >= 6 or self.rng.random() >= 0.2:
+                return
+            self.extra_off += 1
+            ctx.count("steps_with_a_feature_switched_off_monitored")
         lb = self.tap.last_batch
         if model is None or lb is None or lb[0] is not model:
             ctx.count("step_without_batch_context")
@@ -320,3 +332,41 @@ def run_case(case, ctx, st):
         ctx.violation("fit-completes", f"training-raises/{family_of(est)}/{type(e).__name__}@{where}",
                       observed={"exc": repr(e)[:300], "estimator": name, "params": params},
                       expected="every step hands a gradient to the optimiser")
+        return
+    if name in gen.SPARSE and not decorated and not use_path and d >= 2:
+        continue_from_switched_off_feature(ctx, st, est, X, y, rng, d)
+
+
+def continue_from_switched_off_feature(ctx, st, est, X, y, rng, d):
+    """Two more training steps of a fitted sparse model, driven through the documented loop (infer -> gemini with gradient
+    -> _compute_grads -> _update_weights) from the state in which one feature has just been switched off (its skip /
+    weight row and its first-layer row exactly zero, the state every proximal step with a real penalty leads to).  The
+    optimiser hook sees these steps like any other and the same derivative oracle decides them."""
+    try:
+        Xv = np.asarray(X, dtype=np.float64)
+        gem = est.get_gemini()
+        A = gem.compute_affinity(Xv, y)
+        weights = est._get_weights()
+        W = est.W_skip_ if hasattr(est, "W_skip_") else est.W_
+        f = int(rng.integers(0, d))
+        W[f] = 0.0
+        if hasattr(est, "W1_"):
+            est.W1_[f] = 0.0
+        st.tap.stack.append((est, Xv, "fit"))
+        st.kind = "fit"
+        done = 0
+        try:
+            for Xb, Ab in est._batchify(Xv, A, np.random.RandomState(int(rng.integers(0, 10 ** 6)))):
+                st.monitor_steps = {st.step}
+                y_pred = est._infer(Xb)
+                _, g = gem(y_pred, Ab, return_grad=True)
+                grads = est._compute_grads(Xb, y_pred, g)
+                est._update_weights(weights, grads)
+                done += 1
+                if done >= 2:
+                    break
+        finally:
+            st.tap.stack.pop()
+        ctx.count("continuation_steps_from_a_switched_off_feature", done)
+    except Exception as e:
+        ctx.count("continuation_raised:" + type(e).__name__)
